@@ -76,6 +76,7 @@ type Exec struct {
 	known           map[string]bool
 	maxAlloc        int
 	unwindViolation bool
+	stubCRC         bool
 
 	// results of the current job
 	obls      []*Obl
